@@ -142,11 +142,17 @@ def analyse(ctx, run, bools):
                           'corr', 'dispatch:' + ','.join(c for c, _ in calls),
                           'numpy calls of a work package differ from the modelled dispatch of the INPUT lines',
                           inp=_inp(run), expected='expected_calls (Model/MonteCarlo.v) of the INPUT lines', observed=[list(c) for c in calls])))
-    # --- supports: EVERY recorded sample - the draws of every work package (failed or row-less ones included), else the rows
+    short = [t for t in tasks if t['status'] != 'ok' and len(mc.task_entries(t)) < len([i for i in inputs if mc.dist_of(i[1])])
+             and any(x['trace'] for x in tasks)]
+    if short:
+        ctx.violate('corr', 'dispatch:sampling-failed', f'{len(short)} work package(s) failed before drawing all their inputs: {short[0]["status"][:160]}',
+                    inp=_inp(run), expected='one draw per INPUT line (C13_one_entry_per_input)', observed=[c[:2] for c in short[0]['trace']])
+    # --- supports: EVERY recorded sample - every value of every row, plus the draws of the work packages that left no row
     nvals, drawn = 0, Counter()
     sampled = [i for i in inputs if mc.dist_of(i[1])]
-    records = ([[(n, v) for (n, _, _), (_, v) in zip(sampled, mc.task_entries(t))] for t in tasks if t['trace']]
-               or [r['ins'] for r in rows])
+    matched = {id(t) for _, t in mc.match_rows(run, rows)[0]}
+    records = [r['ins'] for r in rows] + [[(n, v) for (n, _, _), (_, v) in zip(sampled, mc.task_entries(t))]
+                                          for t in tasks if t['trace'] and id(t) not in matched]
     for rec in records:
         for (name, val), (iname, word, fields) in zip(rec, sampled):
             d = mc.dist_of(word)
